@@ -34,6 +34,8 @@ def gen(seed, tier):
         steps = ([["sleep", rng.choice([0.01, 0.1, 0.3])]] if rng.random() < 0.5 else []) + ([["spin", 2]] if rng.random() < 0.2 else []) + [last]
         pid = "x%d" % i
         payloads.append({"id": pid, "flavour": target, "via": "execute", "steps": steps, "args": rng.choice(ARGS), "kwargs": rng.choice(KWARGS)})
+        if rng.random() < 0.15:
+            payloads[-1]["times"] = rng.choice([2, 3])  # the same callable object executed again: it has to run again
         ctx = rng.choice(["driver", "driver", "thread-payload", "coroutine-payload"])
         if ctx == "coroutine-payload" and (co_flavour is None or co_flavour == target):
             ctx = "driver"
@@ -84,6 +86,11 @@ def check(h, reason):
     aio_ctx = {(e["ctx"]["loop"], e["ctx"]["sid"]) for e in ev if e["kind"] == "start" and specs[e["pid"]]["flavour"] == "asyncio" and e.get("mode") != "execute"}
     trio_ctx = {(e["ctx"]["trio"], e["ctx"]["sid"]) for e in ev if e["kind"] == "start" and specs[e["pid"]]["flavour"] == "trio" and e.get("mode") != "execute"}
     shape_calls = []
+    ncalls = {}
+    for e in ev:
+        if e["kind"] == "execute-call":
+            ncalls[e["pid"]] = ncalls.get(e["pid"], 0) + 1
+    judged = set()
     for rec in h.exec_results:
         pid = rec["pid"]
         spec = specs[pid]
@@ -95,10 +102,15 @@ def check(h, reason):
         tag = "%s/by-%s/%s" % (fl, byfl, want)
         shape_calls.append(tag)
         starts = [e for e in ev if e["kind"] == "start" and e["pid"] == pid]
-        if len(starts) != 1:
-            V("C10/run-count/" + tag, "executed payload %s ran %d times" % (pid, len(starts)))
+        done = sum(1 for x in h.exec_results if x["pid"] == pid)
+        if len(starts) != done:
+            V("C10/run-count/" + tag, "payload %s was executed %d time(s) and ran %d time(s)" % (pid, done, len(starts)))
             continue
-        s = starts[0]
+        if pid in judged and spec.get("times"):
+            continue
+        judged.add(pid)
+        s = starts[-1]
+        rec = [x for x in h.exec_results if x["pid"] == pid][-1]  # identity is judged on the last call (returned[pid] holds its object)
         if not s.get("args_ok"):
             V("C10/wrong-arguments/" + tag, "payload %s received args=%r kwargs=%r, supplied %r %r" % (pid, s["args"], s["kwargs"], spec.get("args"), spec.get("kwargs")))
         ctx = s["ctx"]
